@@ -11,6 +11,10 @@
    exitReason(), repeatRetries, ... are compared with the specification.  The families include transient filesystem
    faults: the k-th canConsume() listing of a still output-less producer directory raises OSError (the directory is
    moved away around the real os.listdir); a check that raised has seen nothing, so no launch may follow from it.
+   The "plumbing" family drives the observer through the REAL ComponentState.stageIn() producer subscription (real
+   ComponentState objects for the observer and its producers: two live producers, same-named producers in two stages
+   with one already finished, both reference orders, only finished producers): notify_all_producers_finished() must be
+   entered exactly when the last producer that was alive at stageIn() -- identified by stage and name -- has finished.
 3. code -> spec: seeded random schedules over a larger space (long tasks, long intervals, several outputs, external
    kill, kill delay) are executed on the real engine, every run is recorded as a trace and validated by TLC with
    spec/Repeating_trace.tla: "conform" (the run must be a behaviour of the spec; the named deviations needed to
@@ -36,6 +40,7 @@ KEY_OF_DEV = {
     "stale-check": "race:last-output-and-notification-inside-output-check:no-retries-left",
 }
 KEY_OF_CLAUSE = {
+    "p0": "plumbing:producers-finished-notification-before-every-live-producer-finished",
     "p1": "clause1:executed-before-consumable-output",
     "p2": "clause2:stopped-before-an-execution-that-began-after-the-last-output",
     "p3a": "clause3:more-attempts-than-retries-allow-or-launch-after-final-success",
@@ -54,16 +59,16 @@ def _b(x):
 
 def constants(intervals=(7,), retries=(0, 1), die=(0,), modes=("repeatingProducer",), durations=(2, 6), outcomes=("ok", "fail"),
               notify_by=7, max_outputs=1, extkill=False, prenotify=True, window=True, prerun=False, deviations=(), record=False,
-              max_faults=0):
-    return ("CONSTANTS\n  Intervals = %s\n  RetrySet = %s\n  DieAfterSet = %s\n  Modes = %s\n  Durations = %s\n  Outcomes = %s\n"
+              max_faults=0, shapes=("direct",)):
+    return ("CONSTANTS\n  Intervals = %s\n  RetrySet = %s\n  DieAfterSet = %s\n  Modes = %s\n  Shapes = %s\n  Durations = %s\n  Outcomes = %s\n"
             "  NotifyBy = %d\n  MaxOutputs = %d\n  MaxFaults = %d\n  AllowExternalKill = %s\n  AllowPreNotify = %s\n  AllowWindow = %s\n"
             "  PreRunOutput = %s\n  Deviations = %s\n  Record = %s\n" % (
-                _set(intervals), _set(retries), _set(die), _set(modes), _set(durations), _set(outcomes), notify_by, max_outputs, max_faults,
+                _set(intervals), _set(retries), _set(die), _set(modes), _set(shapes), _set(durations), _set(outcomes), notify_by, max_outputs, max_faults,
                 _b(extkill), _b(prenotify), _b(window), _b(prerun), _set(deviations), _b(record)))
 
 
-INVARIANTS = ["TypeOK", "Consistent", "NoExecutionBeforeOutput", "FinalOutputObserved", "BoundedAttempts", "StopsForAReason", "StopsInTime"]
-ACTIONS = ["Run", "Poll", "Begin", "Sample", "TaskEnd", "Decide", "LastAction", "Tick", "NotifyProducersFinished", "NewOutput",
+INVARIANTS = ["TypeOK", "Consistent", "NotifiedOnlyWhenFinished", "NoExecutionBeforeOutput", "FinalOutputObserved", "BoundedAttempts", "StopsForAReason", "StopsInTime"]
+ACTIONS = ["Run", "Poll", "Begin", "Sample", "TaskEnd", "Decide", "LastAction", "Tick", "ProducerFinishes", "NewOutput",
            "KillDelay", "ExternalKill"]
 WITNESSES = ["W_StopsAfterSuccess", "W_StopsOutOfRetries", "W_StopsByKillDelayIdle", "W_ForcedRun", "W_WindowNotify"]
 
@@ -85,10 +90,10 @@ def design_checks(chk, tier):
     inv = "".join("INVARIANT %s\n" % i for i in INVARIANTS)
     if thorough:
         c = constants(intervals=(3, 7, 12), retries=(0, 1, 2), die=(0, 4), modes=ALL_MODES, durations=(2, 6), notify_by=14, max_outputs=2,
-                      extkill=True, max_faults=1)
+                      extkill=True, max_faults=1, shapes=("direct", "two", "sameNameEarlierLast", "earlierOnly"))
     else:
         c = constants(intervals=(3, 12), retries=(0, 2), die=(0, 4), modes=ALL_MODES, durations=(2, 6), notify_by=8, max_outputs=1,
-                      extkill=True, max_faults=1)
+                      extkill=True, max_faults=1, shapes=("direct", "two", "earlierOnly"))
     r = tlc.run_tlc("Repeating", _cfg("Repeating_design_%s.cfg" % tier, c + "SPECIFICATION Spec\n" + inv), coverage=True, deadlock=False,
                     timeout=1500)
     if not r["ok"]:
@@ -118,6 +123,8 @@ def design_checks(chk, tier):
         jobs.append(("witness " + wname, wname, _cfg("Repeating_wit_%s.cfg" % wname, c + "SPECIFICATION Spec\nINVARIANT %s\n" % wname)))
     c = constants(intervals=(3,), retries=(1,), die=(0,), modes=("plainProducer", "noCheck"), durations=(2,), notify_by=12, max_faults=2)
     jobs.append(("witness W_FaultedCheck", "W_FaultedCheck", _cfg("Repeating_wit_W_FaultedCheck.cfg", c + "SPECIFICATION Spec\nINVARIANT W_FaultedCheck\n")))
+    c = constants(intervals=(7,), retries=(1,), die=(0,), shapes=("two", "sameNameEarlierLast"), durations=(2,), notify_by=8)
+    jobs.append(("witness W_PlumbingNotified", "W_PlumbingNotified", _cfg("Repeating_wit_W_PlumbingNotified.cfg", c + "SPECIFICATION Spec\nINVARIANT W_PlumbingNotified\n")))
     with ThreadPoolExecutor(max_workers=4) as ex:
         res = list(ex.map(lambda j: tlc.run_tlc("Repeating", j[2], deadlock=False, timeout=600, expect_violation=True, workers=2), jobs))
     for (what, want, _), r in zip(jobs, res):
@@ -142,6 +149,9 @@ def families(tier):
             ("forced", dict(intervals=(30,), retries=(3, 5), die=(0,), modes=("repeatingProducer",), durations=(3, 22), notify_by=6, window=False)),
             ("fsfault", dict(intervals=(3, 7), retries=(0, 2), die=(0, 9), modes=("plainProducer", "noCheck"), durations=(2,), notify_by=8,
                              max_outputs=1, max_faults=3, window=False)),
+            ("plumbing", dict(intervals=(7,), retries=(0, 1), die=(0, 4), shapes=("one", "two", "sameNameEarlierLast", "sameNameEarlierFirst",
+                                                                                   "twoAndEarlier", "earlierOnly"),
+                              durations=(2,), notify_by=8, max_outputs=1)),
         ]
     return [
         ("timeline", dict(intervals=(7,), retries=(0, 1), die=(0,), modes=("repeatingProducer",), durations=(2, 6), notify_by=7, max_outputs=1)),
@@ -154,6 +164,8 @@ def families(tier):
                         prenotify=False)),
         ("fsfault", dict(intervals=(3,), retries=(0, 1), die=(0,), modes=("plainProducer", "noCheck"), durations=(2,), outcomes=("ok",), notify_by=6,
                          max_outputs=1, max_faults=2, window=False)),
+        ("plumbing", dict(intervals=(7,), retries=(0, 1), die=(0,), shapes=("one", "two", "sameNameEarlierLast", "sameNameEarlierFirst", "earlierOnly"),
+                          durations=(2,), notify_by=5, max_outputs=1, window=False)),
     ]
 
 
@@ -186,6 +198,11 @@ def stop_bound(cfg):
     return min(by, cfg["die"] + 2) if cfg["die"] > 0 else by
 
 
+def world_shapes():
+    from .. import world_c13
+    return world_c13.SHAPES
+
+
 def random_cases(n, seed):
     rnd = random.Random(seed)
     out = []
@@ -194,6 +211,11 @@ def random_cases(n, seed):
         cfg = {"R": rnd.choice([3, 5, 7, 10, 12, 17, 25, 30]), "retries0": rnd.choice([0, 1, 2, 3, 5]),
                "die": rnd.choice([0, 0, 0, 3, 8, 15, 40]), "mode": rnd.choice(ALL_MODES), "maxd": maxd}
         tn = rnd.choice([-1, -1] + list(range(1, 121, 2)) + [10 * k for k in range(1, 8)])
+        cfg["shape"] = "direct"
+        if rnd.random() < 0.3:
+            # through the real ComponentState plumbing: plain producers, some already finished, same names in two stages
+            cfg["shape"] = rnd.choice(sorted(world_shapes()))
+            cfg["mode"] = "plainProducer" if any(st == 1 for st, _, _ in world_shapes()[cfg["shape"]]) else "earlierStage"
         sched = []
         if tn >= 1:          # output appears while the producers run (output before run() is outside the claim)
             for _ in range(rnd.choice([0, 1, 1, 2, 3, 4])):
@@ -201,10 +223,19 @@ def random_cases(n, seed):
                     sched.append({"a": "output", "s": rnd.randrange(1, tn + 1, 2)})
                 else:
                     sched.append({"a": "output", "s": min(tn, 10 * rnd.randrange(1, 8))})      # aims at an output-check window
-        sched.append({"a": "notify", "s": tn})
+        if cfg["shape"] == "direct":
+            sched.append({"a": "notify", "s": tn})
+        else:
+            live = [k + 1 for k, x in enumerate(world_shapes()[cfg["shape"]]) if x[2]]
+            rnd.shuffle(live)
+            if not live:
+                sched = []               # nobody is left who could write output
+            for k, pidx in enumerate(live):          # the last one finishes at tn, the others somewhere before
+                last = k == len(live) - 1
+                sched.append({"a": "pfinish", "s": tn if last or tn == -1 else rnd.randrange(-1, tn + 1, 2), "p": pidx})
         if rnd.random() < 0.15:
             sched.append({"a": "extkill", "s": rnd.randrange(-1, 160, 2)})
-        sched.sort(key=lambda e: (e["s"], {"output": 0, "notify": 1, "extkill": 2}[e["a"]]))
+        sched.sort(key=lambda e: (e["s"], {"output": 0, "pfinish": 1, "notify": 1, "extkill": 2}[e["a"]]))
         if cfg["mode"] in ("plainProducer", "noCheck") and rnd.random() < 0.5:
             # transient filesystem faults: the k-th canConsume() listing of the (still empty) producer directory raises OSError
             for _ in range(rnd.randint(1, 5)):
@@ -299,7 +330,7 @@ def emission_diffs(res):
 
 
 def trace_constants(tf, verbose=False):
-    return (constants(intervals=(5,), retries=(0,), die=(0,), modes=("earlierStage",), durations=tuple(range(1, 41)),
+    return (constants(intervals=(5,), retries=(0,), die=(0,), modes=("earlierStage",), shapes=("direct",), durations=tuple(range(1, 41)),
                       outcomes=("ok", "fail", "rexh"), notify_by=1000000, max_outputs=1000, extkill=True, prenotify=True, window=True,
                       prerun=True, deviations=("stale-suicide", "stale-check"), max_faults=1000) +
             "  Verbose = %s\n  TraceFile = \"%s\"\nINIT TInit\nNEXT TNext\nINVARIANT Report\nCHECK_DEADLOCK FALSE\n" % (_b(verbose), tf))
@@ -346,12 +377,13 @@ def validate_traces(chk, runs, tag):
 
 
 def describe(item, res):
-    env = [e for e in item["sched"] if e["a"] in ("notify", "output", "extkill")]
+    env = [e for e in item["sched"] if e["a"] in ("notify", "pfinish", "output", "extkill")]
     flt = [e["s"] for e in item["sched"] if e["a"] == "check"]
     if any(flt):
         env = env + [{"a": "listing-faults", "s": flt}]
     return "cfg %s env %s -> launches %s, final alive=%s reason=%s retries=%s t=%s" % (
-        {k: item["cfg"][k] for k in ("R", "retries0", "die", "mode")}, [(e["a"], e["s"]) for e in env],
+        {k: item["cfg"][k] for k in ("R", "retries0", "die", "mode", "shape") if k in item["cfg"]},
+        [(e["a"], e["s"]) + ((e["p"],) if e["a"] == "pfinish" else ()) for e in env],
         [(l["t"], l["saw"]) for l in res["launches"]], res["final"]["alive"], res["final"]["reason"], res["final"]["retries"], res["final"]["now"])
 
 
@@ -408,7 +440,7 @@ def _run(chk, tier):
     to_trace = []
     nmis = 0
     for it, res in zip(replays, results[:len(replays)]):
-        chk.evaluated((it["cfg"], [(e["a"], e["s"]) for e in it["sched"]]))
+        chk.evaluated((it["cfg"], [(e["a"], e["s"], e.get("p")) for e in it["sched"]]))
         diffs = compare_with_spec(it["spec"], res)
         ed = emission_diffs(res)
         if diffs:
